@@ -114,6 +114,8 @@ def parseCase (w : List String) : Option Case :=
       | "scgi" => some .scgi | "fcgi" => some .fcgi
       | "http10" => some (.http false false) | "http11" => some (.http true false)
       | "http10ka" => some (.http false true) | "http11ka" => some (.http true true)
+      -- "...2": the harness sends the request twice on one connection and demands identical responses; one response is predicted
+      | "http10ka2" => some (.http false true) | "http11ka2" => some (.http true true) | "fcgi2" => some .fcgi
       | _ => none
     let mode? : Option Mode := match mode with
       | "normal" => some .normal | "nogzip" => some .nogzip | "raw" => some .raw
